@@ -219,6 +219,11 @@ def _render_file(R, path, repo, canary_fn, canary_kind, depth):
             src = load_src(repo, f)
             out, meta = X.extract_function(src, f, cont, name, sp, opts, lock=getattr(R, 'lock', {}).get('%d:%s' % (idx, name)))
             start = len(R.lines) + 1
+            # loops see the function's context (facts about hoisted locals, parameters) unless the unit opts out: an edit that
+            # merely hoists a loop-invariant read into a local must not break the proof (measured on harmless refactorings)
+            prev = R.lines[-1].strip() if R.lines else ''
+            if opts.get('isolation') != 'yes' and R.meta.get('isolation') != 'yes' and 'loop_isolation' not in prev:
+                R.add('#[verifier::loop_isolation(false)]', ('tmpl', rel, i))
             for text, org in out:
                 if org[0] == 'spec':
                     R.add(text, ('spec', org[1][0], org[1][1]))
